@@ -14,7 +14,9 @@ verus! {
 pub type LineSections<'a, S> = Vec<(S, &'a str)>;
 #[verifier::external_body]
 pub struct SyntectStyle { _p: u8 }
-//@ type src/config.rs Config keep=keep_plus_minus_markers,plus_style,minus_style
+//@ type src/wrapping.rs WrapConfig keep=max_lines noderive
+//@ type src/config.rs Config keep=keep_plus_minus_markers,plus_style,minus_style,wrap_config
+pub type SideBySideLineWidth = MinusPlus<usize>;
 pub mod format {
     use vstd::prelude::*;
     #[verifier::external_body]
@@ -118,6 +120,28 @@ pub open spec fn row_states_ok(ix: Option<usize>, states: Seq<State>, left: bool
 //@| ensures final(line_numbers_data).line_number.minus == (if begins_removed(minus_line_index, line_states.minus@) { inc(old(line_numbers_data).line_number.minus) } else { old(line_numbers_data).line_number.minus }),  // @C05:the.old.file.counter.advances.on.exactly.the.rows.that.begin.a.removed.line
 //@|     final(line_numbers_data).line_number.plus == (if begins_added(plus_line_index, line_states.plus@) { inc(old(line_numbers_data).line_number.plus) } else { old(line_numbers_data).line_number.plus }),  // @C05:the.new.file.counter.advances.on.exactly.the.rows.that.begin.an.added.line
 //@|     rest_kept(final(line_numbers_data), old(line_numbers_data)),
+
+// ---- whether the lines of a block are wrapped at all (C07) ----
+/// what `available_line_width` / `has_long_lines` answer (the functions themselves: closures over `&mut` captures and
+/// iterator adapters, not under contract)
+pub uninterp spec fn avail_spec(config: &Config, data: &LineNumbersData) -> SideBySideLineWidth;
+pub uninterp spec fn long_lines_spec(lines: LeftRight<&Vec<(String, State)>>, w: SideBySideLineWidth) -> (bool, LeftRight<Vec<bool>>);
+//@ stub src/features/side_by_side.rs available_line_width
+//@| ensures r == avail_spec(config, data),
+//@ stub src/features/side_by_side.rs has_long_lines
+//@| ensures r == long_lines_spec(*lines, *line_width),
+/// (R3) `LeftRight::default()`
+#[verifier::external_body]
+pub fn verif_lr_default<T>() -> LeftRight<T> { unimplemented!() }
+
+//@ region src/features/side_by_side.rs paint_minus_and_plus_lines_side_by_side
+//@sig pub fn sbs_whether_to_wrap_region(lines: LeftRight<&Vec<(String, State)>>, line_numbers_data: &LineNumbersData, config: &Config) -> (r: (bool, SideBySideLineWidth, LeftRight<Vec<bool>>))
+//@from <<<let (should_wrap, line_width, long_lines) = {>>>
+//@to <<<(should_wrap, line_width, long_lines) } };>>>
+//@tail (should_wrap, line_width, long_lines)
+//@| ensures r.0 == (config.wrap_config.max_lines != 1 && long_lines_spec(lines, avail_spec(config, line_numbers_data)).0),  // @C07:the.lines.of.a.block.are.wrapped.whenever.one.is.too.long.for.its.panel.unless.wrapping.is.switched.off.and.zero.means.no.limit
+//@|     config.wrap_config.max_lines != 1 ==> r.1 == avail_spec(config, line_numbers_data) && r.2 == long_lines_spec(lines, r.1).1,
+//@rewriteall <<<LeftRight::default()>>> => <<<verif_lr_default()>>>
 
 } // verus!
 fn main() {}
